@@ -1,5 +1,269 @@
+import Casket.Model.Gzip
+import Casket.Spec.Gzip
 import Driver.Proto
-/- Streams of C18 (stub: not built yet). -/
+/-
+Streams of C18.
+  c18.wrap    blocks  path  ae  innerhdr  body  plen  ops  ret
+      blocks   = ';' list of  exts|nots|minlen|level   (exts, nots: comma lists of hex strings)
+      innerhdr = ce|cl|vary|etag   ce hex; cl - or a number; vary 0/1; etag -|s|w
+      body     = term: r<hex> | E<status> | gzip(<term>) | zstd(<term>) | br(<term>)
+      ops      = comma list of  h<code> | w | f
+      out      = <resp with gzip> TAB <resp without>;  resp = status ce cl vary etag term
+                 (ce hex or -, cl - absent / = correct / ! wrong)
+  c18.static  blocks  path  ae  siblings  content  plens
+      siblings = subset string of z,b,g ; plens = sizes of the .zst,.br,.gz files (0 if absent)
+-/
 namespace Driver.C18
-def streams : List Driver.Stream := []
+open Casket.Gzip Casket.GzipSpec
+open Casket.Limits (Bytes)
+
+def hexList (s : String) : Option (List Bytes) :=
+  if s = "" then some [] else (s.splitOn ",").mapM Driver.unhex
+
+def parseBlock (s : String) : Option Block :=
+  match s.splitOn "|" with
+  | [e, n, m, _level] => do
+    pure { exts := ← hexList e, nots := ← hexList n, minLen := ← m.toNat? }
+  | _ => none
+
+def parseBlocks (s : String) : Option (List Block) :=
+  if s = "" then some [] else (s.splitOn ";").mapM parseBlock
+
+def parseCoding : String → Option Coding
+  | "gzip" => some .gzip
+  | "zstd" => some .zstd
+  | "br" => some .br
+  | _ => none
+
+def codingStr : Coding → String
+  | .gzip => "gzip"
+  | .zstd => "zstd"
+  | .br => "br"
+
+def showTerm : Term → String
+  | .raw b => "r" ++ Driver.hex b
+  | .errPage s => "E" ++ toString s
+  | .layer c t => codingStr c ++ "(" ++ showTerm t ++ ")"
+
+def parseTermFuel : Nat → String → Option Term
+  | 0, _ => none
+  | fuel + 1, s =>
+    if s.startsWith "r" then (Driver.unhex (s.drop 1).toString).map Term.raw
+    else if s.startsWith "E" then ((s.drop 1).toString.toNat?).map Term.errPage
+    else if s.endsWith ")" then
+      match s.splitOn "(" with
+      | name :: rest@(_ :: _) => do
+        let c ← parseCoding name
+        let inner := ((("(".intercalate rest).dropEnd 1).toString)
+        let t ← parseTermFuel fuel inner
+        pure (Term.layer c t)
+      | _ => none
+    else none
+
+def parseTerm (s : String) : Option Term := parseTermFuel 8 s
+
+def parseETag : String → Option ETag
+  | "-" => some .none
+  | "s" => some .strong
+  | "w" => some .weak
+  | _ => none
+
+def showETag : ETag → String
+  | .none => "-"
+  | .strong => "s"
+  | .weak => "w"
+
+def parseHdr (s : String) : Option Hdr :=
+  match s.splitOn "|" with
+  | [ce, cl, v, e] => do
+    let cl ← if cl = "-" then pure none else (cl.toNat?).map some
+    pure { ce := ← Driver.unhex ce, cl := cl, varyAE := v == "1", etag := ← parseETag e }
+  | _ => none
+
+/-- `c` (io.Copy into w) and `s` (io.WriteString) output the next piece of the body exactly
+like `w` (Write): that is what the property demands of any wrapper fast path, so the model has
+one op for the three and the theorems quantify over all of them. -/
+def parseOp (s : String) : Option Op :=
+  if s = "w" || s = "c" || s = "s" then some .write
+  else if s = "f" then some .flush
+  else if s.startsWith "h" then ((s.drop 1).toString.toNat?).map Op.hdr
+  else none
+
+def parseOps (s : String) : Option (List Op) :=
+  if s = "" then some [] else (s.splitOn ",").mapM parseOp
+
+def showCL : CLState → String
+  | .absent => "-"
+  | .ok => "="
+  | .wrong => "!"
+
+def parseCL : String → Option CLState
+  | "-" => some .absent
+  | "=" => some .ok
+  | "!" => some .wrong
+  | _ => none
+
+def showObs (o : Obs) : String :=
+  let ce := if o.ce.isEmpty then "-" else Driver.hex o.ce
+  s!"{o.status} {ce} {showCL o.cl} {if o.varyAE then "1" else "0"} {showETag o.etag} {showTerm o.body}"
+
+def parseObs (s : String) : Option Obs :=
+  match s.splitOn " " with
+  | [st, ce, cl, v, e, t] => do
+    let ce ← if ce = "-" then pure [] else Driver.unhex ce
+    pure { status := ← st.toNat?, ce := ce, cl := ← parseCL cl, varyAE := v == "1", etag := ← parseETag e,
+           body := ← parseTerm t }
+  | _ => none
+
+structure WCase where
+  blocks : List Block
+  path : Bytes
+  ae : Bytes
+  inner : Inner
+
+def parseWrap : List String → Option WCase
+  | [bl, p, ae, h, body, plen, ops, ret] => do
+    pure { blocks := ← parseBlocks bl, path := ← Driver.unhex p, ae := ← Driver.unhex ae,
+           inner := { hdr := ← parseHdr h, body := ← parseTerm body, plen := ← plen.toNat?,
+                      ops := ← parseOps ops, ret := ← ret.toNat? } }
+  | _ => none
+
+def wrapModel (f : List String) : String :=
+  match parseWrap f with
+  | none => "bad-case"
+  | some c => showObs (observe (gzipRun c.blocks c.path c.ae c.inner)) ++ "\t" ++ showObs (observe (plainRun c.inner))
+
+def wrapJudge (f : List String) (out : String) : String :=
+  match parseWrap f, out.splitOn "\t" with
+  | some c, [g, p] =>
+    match parseObs g, parseObs p with
+    | some g, some p => verdict c.ae g p
+    | _, _ => if (out.splitOn "X-").length > 1 then "bad:undecodable:the body is not a complete stream of the coding it starts with"
+              else "bad:unparsable:" ++ out
+  | _, _ => "bad:unparsable:" ++ out
+
+def parseSiblings (s : String) : List Coding :=
+  (if s.contains 'z' then [Coding.zstd] else []) ++ (if s.contains 'b' then [Coding.br] else []) ++
+    (if s.contains 'g' then [Coding.gzip] else [])
+
+structure SCase where
+  blocks : List Block
+  path : Bytes
+  ae : Bytes
+  siblings : List Coding
+  content : Bytes
+  plens : List Nat
+
+def parseStatic : List String → Option SCase
+  | [bl, p, ae, sib, content, plens] => do
+    pure { blocks := ← parseBlocks bl, path := ← Driver.unhex p, ae := ← Driver.unhex ae,
+           siblings := parseSiblings sib, content := ← Driver.unhex content, plens := ← Driver.natList plens }
+  | _ => none
+
+def sibLen (c : SCase) : Coding → Nat
+  | .zstd => c.plens.getD 0 0
+  | .br => c.plens.getD 1 0
+  | .gzip => c.plens.getD 2 0
+
+def staticInnerOf (c : SCase) : Inner :=
+  let plen := match pickSibling c.siblings c.ae with
+    | some cd => sibLen c cd
+    | none => c.content.length
+  staticInner c.siblings c.ae c.content plen
+
+def staticModel (f : List String) : String :=
+  match parseStatic f with
+  | none => "bad-case"
+  | some c =>
+    let i := staticInnerOf c
+    showObs (observe (gzipRun c.blocks c.path c.ae i)) ++ "\t" ++ showObs (observe (plainRun i))
+
+def staticJudge (f : List String) (out : String) : String :=
+  match parseStatic f, out.splitOn "\t" with
+  | some c, [g, p] =>
+    match parseObs g, parseObs p with
+    | some g, some p => staticVerdict c.ae c.content g p
+    | _, _ => if (out.splitOn "X-").length > 1 then "bad:undecodable:the body is not a complete stream of the coding it starts with"
+              else "bad:unparsable:" ++ out
+  | _, _ => "bad:unparsable:" ++ out
+
+/-- "a-b" | "a-" | "-n" against a representation of `size` bytes (the generator only sends
+satisfiable ranges) -/
+def parseRange (s : String) (size : Nat) : Option (Nat × Nat) :=
+  match s.splitOn "-" with
+  | ["", n] => n.toNat?.map fun n => (size - n, size - 1)
+  | [a, ""] => a.toNat?.map fun a => (a, size - 1)
+  | [a, b] => do pure (← a.toNat?, min (← b.toNat?) (size - 1))
+  | _ => none
+
+def showRangeObs (o : Obs) (lo hi size : Nat) : String :=
+  let ce := if o.ce.isEmpty then "-" else Driver.hex o.ce
+  s!"{o.status} {ce} {showCL o.cl} {lo}-{hi}/{size} slice-ok"
+
+def rangeModel (f : List String) : String :=
+  match f with
+  | [bl, p, ae, sib, content, plens, rng] =>
+    match parseStatic [bl, p, ae, sib, content, plens] with
+    | none => "bad-case"
+    | some c =>
+      let size := match pickSibling c.siblings c.ae with
+        | some cd => sibLen c cd
+        | none => c.content.length
+      match parseRange rng size with
+      | none => "bad-case"
+      | some (lo, hi) =>
+        let i := rangeInner c.siblings c.ae (hi + 1 - lo)
+        showRangeObs (observe (gzipRun c.blocks c.path c.ae i)) lo hi size ++ "\t" ++
+          showRangeObs (observe (plainRun i)) lo hi size
+  | _ => "bad-case"
+
+def parseRangeObs (s : String) : Option (Obs × String × Bool) :=
+  match s.splitOn " " with
+  | [st, ce, cl, cr, sl] => do
+    let ce ← if ce = "-" then pure [] else Driver.unhex ce
+    pure ({ status := ← st.toNat?, ce := ce, cl := ← parseCL cl, varyAE := false, etag := .none, body := .raw [] },
+          cr, sl == "slice-ok")
+  | _ => none
+
+def rangeJudge (f : List String) (out : String) : String :=
+  match f, out.splitOn "\t" with
+  | [_, _, ae, _, _, _, _], [g, p] =>
+    match Driver.unhex ae, parseRangeObs g, parseRangeObs p with
+    | some ae, some (g, gr, gs), some (p, pr, ps) => rangeVerdict ae g p gr pr gs ps
+    | _, _, _ => "bad:unparsable:" ++ out
+  | _, _ => "bad:unparsable:" ++ out
+
+/-- c18.live: status, Content-Encoding and body term of both executions over a real connection -/
+def showLive (o : Obs) : String :=
+  let ce := if o.ce.isEmpty then "-" else Driver.hex o.ce
+  s!"{o.status} {ce} {showTerm o.body}"
+
+def liveModel (f : List String) : String :=
+  match parseWrap f with
+  | none => "bad-case"
+  | some c => showLive (observe (gzipRun c.blocks c.path c.ae c.inner)) ++ "\t" ++ showLive (observe (plainRun c.inner))
+
+def parseLive (s : String) : Option Obs :=
+  match s.splitOn " " with
+  | [st, ce, t] => do
+    let ce ← if ce = "-" then pure [] else Driver.unhex ce
+    pure { status := ← st.toNat?, ce := ce, cl := .absent, varyAE := false, etag := .none, body := ← parseTerm t }
+  | _ => none
+
+def liveJudge (f : List String) (out : String) : String :=
+  match parseWrap f, out.splitOn "\t" with
+  | some c, [g, p] =>
+    match parseLive g, parseLive p with
+    | some g, some p => verdict c.ae g p
+    | _, _ => if (out.splitOn "X-").length > 1 then "bad:undecodable:the body is not a complete stream of the coding it starts with, or the connection broke"
+              else "bad:unparsable:" ++ out
+  | _, _ => "bad:unparsable:" ++ out
+
+def streams : List Driver.Stream := [
+  { name := "c18.live", model := liveModel, judge := liveJudge },
+  { name := "c18.range", model := rangeModel, judge := rangeJudge },
+  { name := "c18.wrap", model := wrapModel, judge := wrapJudge },
+  { name := "c18.static", model := staticModel, judge := staticJudge }
+]
+
 end Driver.C18
